@@ -243,14 +243,16 @@ def run_todf_case(keys, mode):
     return "exported-and-reimported", None
 
 
-def run_dup_case(keys, header, i, j, where, allow_missing):
+def run_dup_case(keys, header, i, j, where, allow_missing, text=False):
     """a duplicated label combination with a different value (+ another row dropped so that the row count
     still matches): there is no unique row for that entry, so from_df must not return"""
     from flodym import FlodymArray
 
-    case = dict(kind="dup", keys=keys, header=header, i=i, j=j, where=where, allow_missing=allow_missing)
+    case = dict(kind="dup", keys=keys, header=header, i=i, j=j, where=where, allow_missing=allow_missing, text=text)
     recs = F.records(keys)
     dup = (dict(recs[i][0]), recs[i][1] + 1000.0)
+    if text:  # the duplicate spells the labels of integer-typed dimensions as text ("2000"): the same labels once converted
+        dup = ({k: (str(v) if F.POOL[k][3] is int else v) for k, v in dup[0].items()}, dup[1])
     rows = [r for k, r in enumerate(recs) if k != j]
     pos = {"end": len(rows), "start": 0, "adjacent": min(len(rows), (i if i < j else i - 1) + 1)}[where]
     rows.insert(pos, dup)
@@ -352,6 +354,8 @@ def run_unit(u):
                         for where in ("end", "start", "adjacent"):
                             for am in (False, True):
                                 rec(*run_dup_case(keys, header, i, j, where, am))
+                                if header == "names" and any(F.POOL[k][3] is int for k in keys):
+                                    rec(*run_dup_case(keys, header, i, j, where, am, True))
             for header in ("names", "letters"):
                 for i in range(n):
                     for d in keys:
@@ -379,7 +383,7 @@ def replay(case):
     elif case["kind"] == "extra":
         oc, f = run_extra_case(case["keys"], case["header"], case["i"], case["d"], case["allow_missing"], case["rowindex"])
     elif case["kind"] == "dup":
-        oc, f = run_dup_case(case["keys"], case["header"], case["i"], case["j"], case["where"], case["allow_missing"])
+        oc, f = run_dup_case(case["keys"], case["header"], case["i"], case["j"], case["where"], case["allow_missing"], case.get("text", False))
     else:
         oc, f = run_todf_case(case["keys"], case["mode"])
     return [f] if f else []
